@@ -17,6 +17,7 @@ import (
 	"io/ioutil"
 	"math"
 	"math/rand"
+	"mime"
 	"net/http"
 	"os"
 	"path"
@@ -423,7 +424,21 @@ func TestEquivalentSpellings(t *testing.T) {
 		if (strings.Index(s, sep) >= 0) != strings.Contains(s, sep) {
 			t.Fatalf("Index/Contains(%q,%q)", s, sep)
 		}
+		if m := int64(n); fmt.Sprintf("%dm", m) != strconv.FormatInt(m, 10)+"m" {
+			t.Fatalf("Sprintf(%%dm) is not FormatInt + m for %d", m)
+		}
 		content := []byte(randString(r, 9))
+		if a, ea := ioutil.ReadAll(bytes.NewReader(content)); true {
+			rd := bytes.NewReader(content)
+			b, eb := io.ReadAll(rd)
+			if !bytes.Equal(a, b) || ea != eb || rd.Len() != 0 {
+				t.Fatalf("ioutil.ReadAll and io.ReadAll differ")
+			}
+			rd2 := bytes.NewReader(content)
+			if _, err := io.Copy(io.Discard, rd2); err != nil || rd2.Len() != 0 {
+				t.Fatalf("io.Copy(io.Discard) does not drain")
+			}
+		}
 		k := r.Intn(6)
 		b1, b2 := make([]byte, k), make([]byte, k)
 		r1, r2 := bytes.NewReader(content), bytes.NewReader(content)
@@ -431,6 +446,16 @@ func TestEquivalentSpellings(t *testing.T) {
 		n2, e2 := io.ReadAtLeast(r2, b2, k)
 		if n1 != n2 || e1 != e2 || !bytes.Equal(b1, b2) || r1.Len() != r2.Len() {
 			t.Fatalf("ReadFull and ReadAtLeast(len) differ on %d of %d bytes", k, len(content))
+		}
+	}
+}
+
+// the axiom on media_type_of: a bare lower-case type/subtype is its own media type
+func TestBareMediaTypes(t *testing.T) {
+	for _, s := range []string{"application/x-protobuf", "application/json", "application/x-httpgrpc-proto+v1"} {
+		mt, params, err := mime.ParseMediaType(s)
+		if err != nil || mt != s || len(params) != 0 {
+			t.Fatalf("ParseMediaType(%q) = %q, %v, %v", s, mt, params, err)
 		}
 	}
 }
